@@ -12,6 +12,7 @@ import Golib.Proof.C15Spec
 import Golib.Proof.C15Underscore
 import Golib.Proof.C15Hex
 import Golib.Proof.C15HexText
+import Golib.Proof.C15B64
 import Golib.Proof.C15IP
 import Golib.Proof.C15Facts
 
@@ -277,6 +278,43 @@ example : invalidByteTextSpec 103 = asciiBytes "encoding/hex: invalid byte: U+00
     invalidByteTextSpec 0 = asciiBytes "encoding/hex: invalid byte: U+0000" ∧
     invalidByteTextSpec 0xe9 = asciiBytes "encoding/hex: invalid byte: U+00E9 '" ++ [0xc3, 0xa9, 39] ∧
     invalidByteTextSpec 0xad = asciiBytes "encoding/hex: invalid byte: U+00AD" := by decide
+
+/-! ### Base64 (`Base64Encode` / `Base64Decode` = `enc.Encode` / `enc.Decode` on a fresh buffer, result
+`dst[:n]` and the error; `e` ranges over Std / URL / RawStd / RawURL) -/
+
+/-- `Base64Decode(Base64Encode(x, enc), enc) = (x, nil)` for every byte string and each of the
+four encodings (alphabet std / URL, padded / raw). -/
+theorem c15_base64_roundtrip (e : B64Enc) (x : List Nat) (hx : ∀ y ∈ x, y < 256) :
+    b64Decode e (b64Encode e x) = (x, none) :=
+  b64_roundtrip e x hx
+
+/-- Invalid input is rejected where `encoding/base64` reports it: after the encoding of complete
+triples `x` and `j ≤ 3` further alphabet characters `q`, a character `c` that is neither in the
+alphabet of the encoding, nor a newline, nor a `=` that could be padding (padded encoding and
+`j ≥ 2`) gives `CorruptInputError` at the OFFSET OF `c`, and the decoded prefix returned with the
+error is exactly `x` — whatever follows `c`.  (A `=` in a raw encoding, a `-` in the std
+alphabet, a `+` in the URL alphabet are instances.) -/
+theorem c15_base64_rejects (e : B64Enc) (x : List Nat) (hm : x.length % 3 = 0)
+    (hx : ∀ y ∈ x, y < 256) (q : List Nat) (hq : q.length ≤ 3) (c : Nat) (post : List Nat)
+    (hc : b64Val e.url c = none) (hnl : isNL c = false)
+    (hpad : ¬ (e.pad = true ∧ c = 61) ∨ q.length < 2) :
+    b64Decode e (b64Encode e x ++ q.map (b64Char e.url) ++ c :: post) =
+      (x, some ((b64Encode e x).length + q.length)) :=
+  b64_invalid_char e x hm hx q hq c post hc hnl hpad
+
+-- the padding grammar as coded (evaluated): "Zm9vYg==" ok; one '=' missing → offset len(src); 'x' after
+-- the padding → the quantum's byte is still delivered, error at the garbage; "Zg=x" → offset 2 (si-1);
+-- newlines are skipped anywhere; raw encodings reject '=' at its offset; URL alphabet in std → offset 0
+example : b64Decode ⟨false, true⟩ (asciiBytes "Zm9vYg==") = (asciiBytes "foob", none) ∧
+    b64Decode ⟨false, true⟩ (asciiBytes "Zm9vYg=") = (asciiBytes "foo", some 7) ∧
+    b64Decode ⟨false, true⟩ (asciiBytes "Zm9vYg==x") = (asciiBytes "foob", some 8) ∧
+    b64Decode ⟨false, true⟩ (asciiBytes "Zg=x") = ([], some 2) ∧
+    b64Decode ⟨false, true⟩ (asciiBytes "Zm9v\nYg=\r\n=\n") = (asciiBytes "foob", none) ∧
+    b64Decode ⟨true, false⟩ (asciiBytes "Zm9vYg==") = (asciiBytes "foo", some 6) ∧
+    b64Decode ⟨true, false⟩ (asciiBytes "Zm9vY") = (asciiBytes "foo", some 4) ∧
+    b64Decode ⟨false, false⟩ (asciiBytes "-_-_") = ([], some 0) ∧
+    b64Decode ⟨true, false⟩ (asciiBytes "-_-_") = ([251, 255, 191], none) ∧
+    b64ErrText 12 = asciiBytes "illegal base64 data at input byte 12" := by decide
 
 /-- `IPv4ToLong(LongToIPv4(x)) = x` for every 32-bit `x`. -/
 theorem c15_ipv4_roundtrip (x : Nat) (hx : x < 2 ^ 32) : ipv4ToLong (longToIPv4 x) = x :=
